@@ -133,9 +133,11 @@ fn sd_pool(rng: &mut Rng, n: usize) -> Vec<SignedDuration> {
         SignedDuration::new(1, 2), SignedDuration::new(-1, -2), SignedDuration::new(3, 4), SignedDuration::new(-785360354, -500000000),
         SignedDuration::new(12, 500_000_000), SignedDuration::new(i64::MAX / 2 + 1, 0), SignedDuration::new(i64::MIN / 2, 0),
         SignedDuration::new(631_107_417_600, 0), SignedDuration::new(-631_107_417_601, 0),
+        SignedDuration::new(0, -999_999_999), SignedDuration::new(0, 999_999_999), SignedDuration::new(0, -500_000_000),
     ];
     for _ in 0..n {
-        let secs = match rng.next() % 5 {
+        let secs = match rng.next() % 6 {
+            5 => rng.range(-1, 1),
             0 => rng.range(-1000, 1000),
             1 => rng.range(i64::MIN, i64::MAX),
             2 => *rng.pick(&[i64::MIN, i64::MAX, i64::MIN + 1, i64::MAX - 1, 0]),
@@ -147,7 +149,9 @@ fn sd_pool(rng: &mut Rng, n: usize) -> Vec<SignedDuration> {
             1 => 999_999_999,
             _ => rng.range(0, 999_999_999) as i32,
         };
-        v.push(SignedDuration::new(secs, if secs < 0 { -ns } else { ns }));
+        // below one second the sign lives in the nanoseconds alone
+        let neg = secs < 0 || (secs == 0 && rng.chance(1, 2));
+        v.push(SignedDuration::new(secs, if neg { -ns } else { ns }));
     }
     v
 }
